@@ -114,14 +114,17 @@ def reports(params, rnd, viol):
     for sname in states:
         for (et, os_) in pairs:
             for qv in QTY_VARIANTS:
-                ft = FIXTester(sch)
-                try:
-                    o, req = reach(sname, ft)
-                except AssertionError:
-                    continue
-                seen_exec = set()
-                clords = [o.clord_id] + ([o.orig_clord_id] if o.orig_clord_id else [])
-                for cl in clords:
+                for which in (0, 1):
+                    ft = FIXTester(sch)
+                    try:
+                        o, req = reach(sname, ft)
+                    except AssertionError:
+                        break
+                    seen_exec = set()
+                    clords = [o.clord_id] + ([o.orig_clord_id] if o.orig_clord_id else [])
+                    if which >= len(clords):
+                        break
+                    cl = clords[which]
                     kw = dict(qv)
                     if o.orig_clord_id and cl == o.clord_id:
                         kw["orig_clord_id"] = o.orig_clord_id
@@ -130,8 +133,8 @@ def reports(params, rnd, viol):
                     order_id_before = o.order_id
                     try:
                         m = ft.fix_exec_report_msg(o, cl, et, os_, **kw)
-                    except AssertionError:
-                        continue  # refused by the helper's own assertions
+                    except (AssertionError, FIXError):
+                        continue  # refused by the helper's own assertions / its own schema validation
                     except BaseException as e:  # noqa
                         record(viol, "fix_exec_report_msg raised %s: %s" % (type(e).__name__, str(e)[:120]), case, "report_fabrication")
                         continue
@@ -143,7 +146,7 @@ def reports(params, rnd, viol):
                             bad.append("two reports for one order carry OrderID %s and %s" % (m[37], m2[37]))
                         if m2[17] == m[17]:
                             bad.append("ExecID %s used twice" % m[17])
-                    except AssertionError:
+                    except (AssertionError, FIXError):
                         pass
                     try:
                         o.process_execution_report(m)
@@ -164,7 +167,7 @@ def reports(params, rnd, viol):
             case = {"state": sname, "reject_status": os_.value}
             try:
                 m = ft.fix_cxlrep_reject_msg(req, os_)
-            except AssertionError:
+            except (AssertionError, FIXError):
                 continue
             except BaseException as e:  # noqa
                 record(viol, "fix_cxlrep_reject_msg raised %s: %s" % (type(e).__name__, str(e)[:120]), case, "report_fabrication")
@@ -272,6 +275,7 @@ def mask(frame: bytes) -> str:
     t = frame.decode("latin-1")
     t = re.sub(r"\x0152=[^\x01]*", "\x0152=T", t)
     t = re.sub(r"\x01122=[^\x01]*", "\x01122=T", t)
+    t = re.sub(r"\x01112=\d{9,}", "\x01112=R", t)  # (TestReqID of send_test_req is the clock)
     t = re.sub(r"\x0110=\d+\x01$", "\x0110=C\x01", t)
     t = re.sub(r"\x019=\d+", "\x019=L", t)
     return t
@@ -303,6 +307,19 @@ def i2a_msg(kind, i):
     return FIXMessage(FMsg.HEARTBEAT)
 
 
+async def do_action(ci, ca, act, k):
+    conn = ci if act.endswith("_i2a") else ca
+    if act.startswith("testreq"):
+        try:
+            await conn.send_test_req()
+        except FIXError:
+            pass  # (a second TestRequest while one is pending is refused by the library: same on both runs)
+    elif act.endswith("_i2a"):
+        await conn.send_msg(i2a_msg(act, k))
+    else:
+        await conn.send_msg(a2i_msg(act, k))
+
+
 def snap(ci, ca):
     return (int(ci._connection_state), ci._session.next_num_in, ci._session.next_num_out,
             int(ca._connection_state), ca._session.next_num_in, ca._session.next_num_out)
@@ -330,12 +347,8 @@ async def run_with_tester(script):
     await pump()
     snaps.append(snap(ci, ca))
     for k, act in enumerate(script):
-        if act.endswith("_i2a"):
-            await ci.send_msg(i2a_msg(act, k))
-            await pump()
-        else:
-            await ca.send_msg(a2i_msg(act, k))
-            await pump()
+        await do_action(ci, ca, act, k)
+        await pump()
         snaps.append(snap(ci, ca))
     await ci.send_msg(FIXMessage(FMsg.LOGOUT))
     await pump()
@@ -345,8 +358,13 @@ async def run_with_tester(script):
 
 async def feed(conn, data):
     """hand bytes to a connection through its own reader task."""
+    from unittest.mock import patch
+
+    async def stop(_):
+        raise asyncio.CancelledError()  # (the task's idle sleep after a disconnect: end of this feed)
     conn._socket_reader = FeedReader([data])
-    await conn.socket_read_task()
+    with patch("asyncio.sleep", stop):
+        await conn.socket_read_task()
     conn._socket_reader = object() if conn._socket_writer is not None else conn._socket_reader
 
 
@@ -381,10 +399,7 @@ async def run_with_real(script):
     await pump()
     snaps.append(snap(ci, ca))
     for k, act in enumerate(script):
-        if act.endswith("_i2a"):
-            await ci.send_msg(i2a_msg(act, k))
-        else:
-            await ca.send_msg(a2i_msg(act, k))
+        await do_action(ci, ca, act, k)
         await pump()
         snaps.append(snap(ci, ca))
     await ci.send_msg(FIXMessage(FMsg.LOGOUT))
